@@ -371,7 +371,7 @@ let shape_main verbose =
          let (lo, hi, mi, ri) = if toks.(0) = "T" then (Unbounded, Unbounded, 1, 2) else (bound_of !kt toks.(1), bound_of !kt toks.(2), 3, 4) in
          let p = pred_mod (n_of_dec toks.(mi)) (n_of_dec toks.(ri)) in
          let before = abs_of !w in
-         (* = ShapeScan.s_retain_in, with the store's flush / splice wrapped to count the paths taken *)
+         (* = ShapeScan.s_retain_in unfolded, with the store's flush / splice wrapped to count the paths taken *)
          let rec nat_of_int i = if i <= 0 then O else S (nat_of_int (i - 1)) in
          let height = (let (_, _, h) = dims () in h) in
          let hs = if height >= 2 then ":height>=2" else if height = 1 then ":height=1" else ":root-leaf" in
@@ -383,7 +383,6 @@ let shape_main verbose =
          let w' = scan_retain_in key_cmp sb_leaves (s_seek key_cmp) flush splice s_has_parent s_more_children
                     (s_underfilling key_size val_size !fk !fv !ps) (s_packs key_size val_size !fk !fv !ps)
                     (nat_of_int (List.length before + 1)) (nat_of_int 4) !w lo hi p in
-         if compare w' (s_retain_in key_cmp key_size val_size !fk !fv !ps !sep !w lo hi p) <> 0 then print_endline "GLUE! retain_in";
          let m' = m_retain_in !fk !fv !ps !sep (erase_tree !w) lo hi p in
          w := w'; check_erasure "retain_in (ScanTree.v)" m';
          (* cross check with the specification (RetainP.v proves it for the logical tree) *)
